@@ -771,12 +771,29 @@ def c17(ck):
         orderc = sorted(range(2048), key=lambda i: (-len(L["wcb"][i]), i))
         maxima[lid] = dict(decomposed=16 * len(L["wb"][order[0]]) + 15 * len(bytes(L["sep"])),
                            composed=16 * len(L["wcb"][orderc[0]]) + 15 * len(bytes(L["sepC"])))
+        def extremal(src_words):
+            """A valid phrase in which every one of the 16 words (the check word too) has the maximal length."""
+            mx = max(len(x) for x in src_words)
+            longest = [i for i in range(2048) if len(src_words[i]) == mx]
+            even = [i for i in longest if i % 2 == 0] or [i for i in range(0, 2048, 2) if len(src_words[i]) >= mx - 3]
+            for _ in range(60000):
+                w = [0] + [rng.choice(longest) for _ in range(15)]
+                w[2] = rng.choice(even)
+                w = codec.fix_check(w)
+                if len(src_words[w[0]]) == mx:
+                    return w
+            return None
+        exts = [x for x in (extremal(L["wb"]), extremal(L["wcb"])) if x]
+        ck.extra.setdefault("extremal_witness_lengths", {})[lid] = [len(codec.phrase(lid, w, composed=False)) for w in exts]
         for k in range(6 if quick else 50):
             src = order if k % 2 == 0 else orderc
             top = 1 + k * 2
-            w = [0] + [src[rng.below(top)] for _ in range(15)]
-            w[2] &= ~1
-            w = codec.fix_check(w)
+            if k < len(exts):
+                w = exts[k]
+            else:
+                w = [0] + [src[rng.below(top)] for _ in range(15)]
+                w[2] &= ~1
+                w = codec.fix_check(w)
             s = Script()
             seed_script(s, 0, w, rng)
             s.add("encode", 0, lid, 0, 1)
@@ -965,7 +982,7 @@ def random_walk(rng, length, faults=False, inject=True, name="walk"):
     for step in range(length):
         k = rng.below(100)
         if faults and rng.chance(1, 3):
-            s.add("env", "fail=%d" % rng.choice([0, 1, 1, 3]))
+            s.add("env", "fail=%d" % rng.choice([0, 1, 1, 2, 3]))
         if not live:
             k = 0
         h = pick()
@@ -1107,9 +1124,36 @@ def mc_behaviours(ck, cfg, limit):
     return out
 
 
+def impl_shapes(ck):
+    """Dependency-call shapes the implementation-structure model (PolyseedImpl.tla) can produce."""
+    import re
+    res = ck.model("PolyseedImpl.tla", "PolyseedImpl_shapes.cfg", heap="16g", timeout=3000)
+    out = set()
+    for m in re.finditer(r'<<\s*"SHAPE",\s*"(\w+)",\s*(\d+),\s*<<(.*?)>>\s*>>(?=\s*(?:<<\s*"SHAPE"|\n[A-Z]|$))', res["out"], re.S):
+        pairs = re.findall(r'<<\s*"(\w+)",\s*"([\w-]+)"\s*>>', m.group(3))
+        out.add((m.group(1), int(m.group(2)), tuple(pairs)))
+    return out
+
+
+def compare_shapes(ck, model):
+    """Informational: does the code still take the steps spec/PolyseedImpl.tla describes?  A refactoring may
+    legitimately change them; the contract (not this) decides violations."""
+    ops = {"Create", "Decode", "DecodeX", "Load", "Free", "Crypt", "Keygen", "Store", "Feature", "Enable", "Inject"}
+    code = {s for s in ck.shapes if s[0] in ops}
+    unknown = sorted(code - model)
+    ck.extra["implementation_model"] = dict(model_shapes=len(model), code_shapes=len(code), code_shapes_in_model=len(code & model),
+                                            not_in_model=[list(map(str, u)) for u in unknown[:10]])
+    if unknown:
+        print("NOTE: %d dependency-call shapes of the code are not paths of spec/PolyseedImpl.tla (model drift, not a violation), e.g. %s"
+              % (len(unknown), unknown[0]))
+
+
 def c13(ck):
     rng = Rng(ck.seed)
     quick = ck.tier == "quick"
+    # the implementation's step structure composed with the contract: Conforms, ReturnsClean on every exit path
+    ck.model("PolyseedImpl.tla", "PolyseedImpl.cfg", heap="16g", timeout=3000)
+    model_shapes = impl_shapes(ck)
     # contract |= property, all behaviours within the bound
     ck.model("PolyseedMC.tla", "PolyseedMC_quick.cfg" if quick else "PolyseedMC_thorough.cfg", heap="16g", timeout=3400)
     # spec -> code: behaviours of the model replayed through the library
@@ -1126,6 +1170,7 @@ def c13(ck):
         ex.variant = "dbg"
         ck.add(ex)
     ck.validate()
+    compare_shapes(ck, model_shapes)
     ck.assumptions += ["exhaustive for all behaviours of the bounded model (pools and bounds in spec/PolyseedMC*.cfg); random walks beyond it"]
 
 
@@ -1187,7 +1232,15 @@ def c18(ck):
         s = Script()
         for k in range(1 + rng.below(4)):
             st = "".join(rng.choice("ABC") for _ in range(5)) + "".join(rng.choice("ABCNN") for _ in range(3))
+            if k == 0 and n % 2 == 0:
+                # a seed that stays alive across the following injections: they must take effect all the same
+                s.add("env", "rand=" + hx(rng.bytes(19)))
+                s.add("create", 9, 0)
             s.add("inject", st)
+            if n % 4 == 0:
+                s.add("env", "fail=1")          # the allocator now in force must be the one asked
+                s.add("create", 8, 0)
+                s.add("env", "fail=0")
             s.add("env", "rand=" + hx(rng.bytes(19)), "time=%d" % (EPOCH + rng.below(900) * STEP), "libctime=%d" % (EPOCH + rng.below(900) * STEP),
                   "mask=" + hx(rng.bytes(32)))
             s.add("create", 1, 0)
@@ -1201,6 +1254,8 @@ def c18(ck):
             s.add("free", 1)
             s.add("free", 2)
             s.add("free", 3)
+        s.add("keygen", 9, 0, 32)
+        s.add("free", 9)
         ck.add(Exec("inject-%d" % n, s.lines))
     ck.validate()
 
@@ -1214,7 +1269,8 @@ def hostile_strings(rng, n, S):
         kind = rng.below(16)
         lid = rng.choice(LANG_IDS)
         L = codec.lang(lid)
-        idx = rand_idx(rng)
+        # valid phrases too, also ones whose features are not enabled: a failed call must leave no seed behind
+        idx = rand_idx(rng, features=rng.choice([0, 0, 16, 1, 8, 5, 31]))
         base = codec.phrase(lid, idx, composed=rng.chance(1, 2))
         if kind == 0:          # exact lengths around the buffer size, pure ASCII, token counts 1 / 16 / many
             target = rng.choice([0, 1, S - 2, S - 1, S, S + 1, 2 * S, 65000])
@@ -1419,9 +1475,11 @@ def exit_path_scripts(rng, tag):
             s.add("encode", 0, lid, coin, r)
             s.add("decode", r, coin, 1)
             s.add("decodex", r, coin, lid, 2)
-            s.add("env", "fail=1")
-            s.add("decode", r, coin, 3)
-            s.add("decodex", r, coin, lid, 3)
+            for fail in (1, 2, 3):      # first request fails / only the second / both
+                s.add("env", "fail=%d" % fail)
+                s.add("decode", r, coin, 3)
+                s.add("decodex", r, coin, lid, 3)
+                s.add("free", 3)
             s.add("env", "fail=0")
             s.add("decode", r, (coin + 1) % 2048, 3)            # checksum
             s.add("decodex", r, (coin + 7) % 2048, lid, 3)
@@ -1465,8 +1523,10 @@ def exit_path_scripts(rng, tag):
         b = s.breg()
         s.add("store", 0, b)
         s.add("load", b, 1)
-        s.add("env", "fail=1")
-        s.add("load", b, 2)
+        for fail in (1, 2):
+            s.add("env", "fail=%d" % fail)
+            s.add("load", b, 2)
+            s.add("free", 2)
         s.add("env", "fail=0")
         img = bytearray(codec.image(rand_secret(rng), 77, 0))
         for pos, val in ((0, 0x51), (9, 0x80 | img[9]), (28, img[28] | 0x40), (29, 0xFE), (31, 0x60), (30, img[30] ^ 1), (12, img[12] ^ 0x10)):
@@ -1494,6 +1554,8 @@ def exit_path_scripts(rng, tag):
 
 def c16(ck):
     rng = Rng(ck.seed)
+    # every exit path of every operation, at design level: no temporary holds secret-derived data at return
+    ck.model("PolyseedImpl.tla", "PolyseedImpl.cfg", heap="16g", timeout=3000)
     variants = ["plain", "O0"] if ck.tier == "quick" else ["plain", "O0", "O3", "dbg"]
     rounds = 2 if ck.tier == "quick" else 12
     for v in variants:
